@@ -285,6 +285,19 @@ func (e *sessEnv) exec(line string) (res string) {
 		}
 		e.hc = stream.NewCheckpoint(e.proxy, vbs, e.cl, e.md, e.cfg, offset.NewOffsetLatestSeqNoInit(e.cfg))
 		return e.drainSorted("closereq", "openreq")
+	case "end":
+		// a regular (non-transient, status OK) end of one vBucket's stream
+		vb := uint16(u64(t[1]))
+		o := e.cl.observer(vb)
+		if o == nil {
+			return "bad:vb not streamed"
+		}
+		e.cl.markEnded(vb)
+		o.End(models.DcpStreamEnd{VbID: vb}, nil)
+		if rest := joinObs(e.buf.drain()); rest != "" && rest != "-" {
+			return "ended ; " + rest
+		}
+		return "ended"
 	case "reopen":
 		vb := uint16(u64(t[1]))
 		o := e.cl.observer(vb)
